@@ -83,25 +83,39 @@ class _DatetimeShim(object):
 
 # --------------------------------------------------------------------------- memfs
 MEMFS = {}
+MEMFS_ENC = {}
 
 
 class _MemOut(io.StringIO):
-    def __init__(self, path):
+    def __init__(self, path, encoding=None):
         io.StringIO.__init__(self)
         self._path = path
+        self._encoding = encoding or "utf-8"
 
     def close(self):
-        MEMFS[self._path] = self.getvalue()
-        io.StringIO.close(self)
+        if not self.closed:
+            text = self.getvalue()
+            io.StringIO.close(self)
+            try:
+                text.encode(self._encoding)  # a text file encodes what is written to it: unencodable characters are an error
+            except UnicodeEncodeError as e:
+                e._verif_env = True  # the simulated file system answering the library, not a harness failure
+                raise
+            MEMFS[self._path] = text
+            MEMFS_ENC[self._path] = self._encoding
 
 
 def memfs_open(path, mode="r", encoding=None, **kw):
     if isinstance(path, str) and path.startswith("mem:"):
         if "w" in mode:
-            return _MemOut(path)
+            return _MemOut(path, encoding)
         if path not in MEMFS:
             raise FileNotFoundError(path)
-        return io.StringIO(MEMFS[path])
+        text = MEMFS[path]
+        enc_w, enc_r = MEMFS_ENC.get(path, "utf-8"), encoding or "utf-8"
+        if enc_w != enc_r:
+            text = text.encode(enc_w).decode(enc_r)
+        return io.StringIO(text)
     return open(path, mode, encoding=encoding, **kw)
 
 
